@@ -15,15 +15,15 @@ vars == <<l, bad>>
 
 Ver(smp) == <<smp.ver[1], smp.ver[2], smp.ver[3]>>
 
-AcceptProgram(r) ==
-    LET Idx == 1 .. Len(r.samples)
-        S == UNION {SetOf(r.samples[i].pre) \cup SetOf(r.samples[i].post) : i \in Idx}
-        R == UNION {SetOf(r.samples[i].se) : i \in Idx}
-        L == UNION {SetOf(r.samples[i].srs) : i \in Idx}
+AcceptSamples(r, smps) ==
+    LET Idx == 1 .. Len(smps)
+        S == UNION {SetOf(smps[i].pre) \cup SetOf(smps[i].post) : i \in Idx}
+        R == UNION {SetOf(smps[i].se) : i \in Idx}
+        L == UNION {SetOf(smps[i].srs) : i \in Idx}
         On(d, smp, X) == IF Gate(d, Ver(smp)) THEN X ELSE {}
     IN  /\ L \subseteq R
         /\ \A i \in Idx :
-             LET smp == r.samples[i] IN
+             LET smp == smps[i] IN
              /\ SetOf(smp.pre)  = On("safe_math_pre_080", smp, S)
              /\ SetOf(smp.post) = On("safe_math_post_080", smp, S)
              /\ SetOf(smp.se)   = On("string_errors", smp, R)
@@ -32,22 +32,27 @@ AcceptProgram(r) ==
 \* ... and, when the record carries the projected tree of the program (lines shifted by r.shift when a pragma line had to
 \* be put in front), the sets are the ones GatedContent.tla derives from the tree
 Shifted(X, k) == {x + k : x \in X}
-AcceptContent(r) ==
+AcceptContentOf(r, smps) ==
     LET T == r.tree
         S == Shifted(SafeMathLines(T), r.shift)
         R == Shifted(StringReqLines(T), r.shift)
         Lmust == Shifted(LongMustLines(T), r.shift)
         Lmay == Shifted(LongMayLines(T), r.shift)
         On(d, smp, X) == IF Gate(d, Ver(smp)) THEN X ELSE {}
-    IN \A i \in 1 .. Len(r.samples) :
-         LET smp == r.samples[i] IN
+    IN \A i \in 1 .. Len(smps) :
+         LET smp == smps[i] IN
          /\ SetOf(smp.pre)  = On("safe_math_pre_080", smp, S)
          /\ SetOf(smp.post) = On("safe_math_post_080", smp, S)
          /\ SetOf(smp.se)   = On("string_errors", smp, R)
          /\ On("short_revert_string", smp, Lmust) \subseteq SetOf(smp.srs)
          /\ SetOf(smp.srs) \subseteq On("short_revert_string", smp, Lmay)
 
-Accept(r) == CASE r.k = "program" -> AcceptProgram(r) /\ (r.tree_ok => AcceptContent(r)) [] OTHER -> FALSE
+\* the samples measured file by file, and the same texts measured side by side in one directory through analyze_dir
+AcceptProgram(r) == AcceptSamples(r, r.samples) /\ AcceptSamples(r, r.dir_samples)
+AcceptContent(r) == AcceptContentOf(r, r.samples) /\ AcceptContentOf(r, r.dir_samples)
+Accept(r) == CASE r.k = "program" -> /\ Len(r.dir_samples) = Len(r.samples)
+                                     /\ AcceptProgram(r) /\ (r.tree_ok => AcceptContent(r))
+               [] OTHER -> FALSE
 
 Init == l = 1 /\ bad = <<>>
 Next == /\ l <= Len(Rec)
